@@ -117,7 +117,13 @@ class DynamicLengthField(Field):
 
         decode_state.cursor_byte_position = decode_state.origin_byte_position + self.offset
         for _ in range(n):
+            orig_cursor = decode_state.cursor_byte_position
             result.append(self.structure.decode_from_pdu(decode_state))
+            if decode_state.cursor_byte_position <= orig_cursor:
+                # items which do not consume any data allow tiny PDUs
+                # to specify billions of items
+                raise DecodeError(f"The items of dynamic length field {self.short_name} "
+                                  f"do not consume any data")
 
         decode_state.origin_byte_position = orig_origin
 
